@@ -2,7 +2,10 @@ package checks
 
 import (
 	"fmt"
+	"io/ioutil"
 	"os"
+
+	"github.com/meshplus/bitxhub-kit/crypto"
 	"reflect"
 	"sort"
 	"strings"
@@ -16,6 +19,38 @@ func init() { Registry["DEBUG"] = Debug }
 
 func Debug(c *mc.Ctx) {
 	c.NoWrite = true
+	if r := os.Getenv("DEBUG_RULE"); r != "" {
+		code, err := ioutil.ReadFile(r)
+		if r == "false" {
+			code, err = fix.FalseRule(), nil
+		}
+		if err != nil {
+			panic(err)
+		}
+		w := fix.BaseWorld(fix.Options{})
+		addr := w.PreludeProof(code)
+		fmt.Println("rule deployed at", addr.String(), "height", w.R.L.GetChainMeta().Height)
+		to := fix.FullID(fix.ChainB, fix.Svc2)
+		for _, c := range []struct{ from string; k crypto.PrivateKey }{{fix.FullID(fix.ChainW, fix.SvcW), fix.KW}, {fix.FullID(fix.ChainF, fix.SvcF), fix.KF}} {
+			ib := &pb.IBTP{From: c.from, To: to, Index: 1}
+			res := w.Block(fix.IBTPTx(c.k, w.N.Next(c.k), ib, []byte("True-proof")))
+			fmt.Printf("from %s: status=%v ret=%q\n", c.from, res.Receipts[0].Status, res.Receipts[0].Ret)
+			ib = &pb.IBTP{From: c.from, To: to, Index: 2}
+			res = w.Block(fix.IBTPTx(c.k, w.N.Next(c.k), ib, []byte("garbage-proof")))
+			fmt.Printf("from %s: status=%v ret=%q\n", c.from, res.Receipts[0].Status, res.Receipts[0].Ret)
+		}
+		pd, _ := (&pb.Payload{Hash: []byte("h")}).Marshal()
+		ib := &pb.IBTP{From: fix.HubID("chainX", fix.SvcR), To: to, Index: 1, Payload: pd}
+		for _, signers := range [][]string{{"hubval-1"}, {"hubval-1", "hubval-2"}, {}} {
+			proof := fix.HubProof(ib, pb.TransactionStatus_BEGIN, pb.TransactionStatus_BEGIN, signers)
+			ib2 := *ib
+			ib2.Proof = nil
+			res := w.Block(fix.IBTPTx(fix.KR, w.N.Next(fix.KR), &ib2, proof))
+			fmt.Printf("hub signers=%v: status=%v ret=%q\n", signers, res.Receipts[0].Status, res.Receipts[0].Ret)
+		}
+		fix.Cleanup()
+		return
+	}
 	if os.Getenv("DEBUG_METHODS") != "" {
 		w := fix.BaseWorld(fix.Options{})
 		cs := w.R.Exec.GetBoltContracts()
